@@ -1812,14 +1812,22 @@ fn boundary_scenario(index: u64, rng: &mut Rng, base: &mut Base, t: &Tables, out
     }
     let plan = boundary_plan(&h.name, t, rng, 6);
     for (field, mut value) in plan {
-        if pname == "debug.evaluate" {
-            // recorded finding C18-debug-evaluate-stack-overflow: long / deeply nested expressions overflow the
-            // connection thread's stack and abort the process; the stream stays below, the corpus replays it
-            if let Some(text) = value.as_str() {
-                if text.len() > 64 {
-                    value = json!(text.chars().take(64).collect::<String>());
-                }
-            }
+        if pname == "debug.evaluate" && field == "expression" && rng.chance(1, 2) {
+            // C18-debug-evaluate-stack-overflow (fixed: parse_debug_expression bounds length and depth): long and
+            // deeply nested expressions on both sides of the bounds must be answered on the 2 MiB connection thread
+            let n = *rng.pick(&[30usize, 63, 64, 65, 200, 400, 1000, 2047, 2048, 5000, 30000]);
+            let text = match rng.below(8) {
+                0 => format!("1{}", "+1".repeat(n)),
+                1 => format!("{}1{}", "(".repeat(n), ")".repeat(n)),
+                2 => format!("{}TRUE", "NOT ".repeat(n)),
+                3 => format!("a{}", ".b".repeat(n)),
+                4 => format!("a{}", "[1]".repeat(n)),
+                5 => format!("{}1{}", "ABS(".repeat(n), ")".repeat(n)),
+                6 => format!("{}1", "-".repeat(n)),
+                _ => "(".repeat(n),
+            };
+            cw.out.count(&format!("evaluate-deep:{}", if text.len() > 4096 { "over-length" } else if n > 64 { "over-depth" } else { "within" }));
+            value = json!(text);
         }
         let mut m = base_params.clone();
         m.insert(field, value);
@@ -2309,6 +2317,16 @@ fn replay_findings(base: &mut Base, out: &mut Out) {
     let expr = format!("1{}", "+1".repeat(200));
     let r = probe(&format!("{{\"id\":6,\"type\":\"debug.evaluate\",\"params\":{{\"expression\":\"{expr}\"}}}}"));
     out.count(&format!("finding:debug-evaluate-deep:{r}"));
+    for (name, expr) in [
+        ("parens", format!("{}1{}", "(".repeat(400), ")".repeat(400))),
+        ("nots", format!("{}TRUE", "NOT ".repeat(300))),
+        ("chain-long", format!("1{}", "+1".repeat(20000))),
+        ("fields", format!("a{}", ".b".repeat(2000))),
+        ("depth-65", format!("1{}", "+1".repeat(65))),
+    ] {
+        let r = probe(&format!("{{\"id\":6,\"type\":\"debug.evaluate\",\"params\":{{\"expression\":\"{expr}\"}}}}"));
+        out.count(&format!("finding:debug-evaluate-deep-{name}:{r}"));
+    }
     // C18-config-duration-overflow: Duration::from_millis(millis * 1_000_000) overflows i64
     let r = probe("{\"id\":7,\"type\":\"config.set\",\"params\":{\"watchdog.timeout_ms\":9223372036855}}");
     out.count(&format!("finding:config-duration-overflow:{r}"));
